@@ -404,11 +404,31 @@ pub fn current_profile() -> String {
         .unwrap_or_else(|| "release".into())
 }
 
+/// background thread: publishes this process's progress counter in `<dir>/progress`
+pub fn start_heartbeat(dir: PathBuf) {
+    std::thread::spawn(move || {
+        let mut last = u64::MAX;
+        loop {
+            let v = crate::exec::PROGRESS.load(Ordering::Relaxed);
+            if v != last {
+                let _ = std::fs::write(dir.join("progress"), v.to_string());
+                last = v;
+            }
+            std::thread::sleep(Duration::from_millis(250));
+        }
+    });
+}
+
+fn read_progress(dir: &Path) -> Option<u64> {
+    std::fs::read_to_string(dir.join("progress")).ok()?.trim().parse().ok()
+}
+
 // ------------------------------------------------------------------ worker (child side)
 
 pub fn worker_main(prop: &dyn Prop, tier: Tier, seed: u64, scratch: PathBuf) {
     install_panic_hook();
     let _ = std::fs::create_dir_all(&scratch);
+    start_heartbeat(scratch.clone());
     let w = WCtx::new(
         scratch.clone(),
         std::env::current_exe().unwrap(),
@@ -430,6 +450,7 @@ pub fn worker_main(prop: &dyn Prop, tier: Tier, seed: u64, scratch: PathBuf) {
             Ok(i) => i,
             Err(_) => break,
         };
+        crate::exec::tick();
         let out = prop.run_case(tier, seed, idx, &w);
         let s = serde_json::to_string(&out).unwrap();
         let mut so = stdout.lock();
@@ -439,7 +460,9 @@ pub fn worker_main(prop: &dyn Prop, tier: Tier, seed: u64, scratch: PathBuf) {
         // keep the scratch small
         if let Ok(rd) = std::fs::read_dir(&scratch) {
             for e in rd.flatten() {
-                let _ = std::fs::remove_dir_all(e.path());
+                if e.file_name() != "progress" {
+                    let _ = std::fs::remove_dir_all(e.path());
+                }
             }
         }
     }
@@ -452,6 +475,10 @@ struct Slot {
     pid: AtomicU64,
     busy_since: Mutex<Option<(u64, Instant)>>,
     killed: AtomicBool,
+    /// 1: no progress for the time limit (hang), 2: progressing but beyond the hard cap (slow)
+    kill_reason: AtomicU64,
+    /// last progress value seen and when it changed
+    progress: Mutex<(u64, Instant)>,
 }
 
 pub struct Suspect {
@@ -539,6 +566,8 @@ pub fn run_parallel(prop: &dyn Prop, tier: Tier, seed: u64, base: &Path) -> RunR
                 pid: AtomicU64::new(0),
                 busy_since: Mutex::new(None),
                 killed: AtomicBool::new(false),
+                kill_reason: AtomicU64::new(0),
+                progress: Mutex::new((0, Instant::now())),
             })
             .collect(),
     );
@@ -551,14 +580,30 @@ pub fn run_parallel(prop: &dyn Prop, tier: Tier, seed: u64, base: &Path) -> RunR
     let wd = {
         let slots = slots.clone();
         let done = done.clone();
+        let base = base.to_path_buf();
         std::thread::spawn(move || {
+            // a worker is hung if its progress counter has not moved for `timeout`; a case that
+            // keeps progressing is only stopped at a hard cap and reported as slow (inconclusive)
+            let hard_cap = timeout * 15;
             while !done.load(Ordering::Relaxed) {
-                for s in slots.iter() {
+                for (si, s) in slots.iter().enumerate() {
                     let b = s.busy_since.lock().unwrap().clone();
                     if let Some((_i, t)) = b {
-                        if t.elapsed() > timeout {
+                        let now = Instant::now();
+                        let cur = read_progress(&base.join(format!("w{si}")));
+                        let mut pr = s.progress.lock().unwrap();
+                        if let Some(v) = cur {
+                            if v != pr.0 {
+                                *pr = (v, now);
+                            }
+                        }
+                        let quiet_since = if pr.1 > t { pr.1 } else { t };
+                        let hung = now.duration_since(quiet_since) > timeout;
+                        let slow = t.elapsed() > hard_cap;
+                        if hung || slow {
                             let pid = s.pid.load(Ordering::Relaxed);
-                            if pid != 0 {
+                            if pid != 0 && !s.killed.load(Ordering::Relaxed) {
+                                s.kill_reason.store(if hung { 1 } else { 2 }, Ordering::Relaxed);
                                 s.killed.store(true, Ordering::Relaxed);
                                 unsafe {
                                     libc::kill(pid as i32, libc::SIGKILL);
@@ -567,7 +612,7 @@ pub fn run_parallel(prop: &dyn Prop, tier: Tier, seed: u64, base: &Path) -> RunR
                         }
                     }
                 }
-                std::thread::sleep(Duration::from_millis(100));
+                std::thread::sleep(Duration::from_millis(300));
             }
         })
     };
@@ -652,8 +697,10 @@ pub fn run_parallel(prop: &dyn Prop, tier: Tier, seed: u64, base: &Path) -> RunR
                                 index: idx,
                                 case: noted,
                                 profile: profile.clone(),
-                                why: if killed {
-                                    "no result within the time limit (worker killed by watchdog)".to_string()
+                                why: if killed && slots[my_slot].kill_reason.load(Ordering::Relaxed) == 2 {
+                                    "SLOW: still progressing at the hard time cap (worker stopped by watchdog)".to_string()
+                                } else if killed {
+                                    "no progress within the time limit (worker killed by watchdog)".to_string()
                                 } else {
                                     format!("worker process died: {:?}", st)
                                 },
@@ -698,7 +745,10 @@ pub fn run_parallel(prop: &dyn Prop, tier: Tier, seed: u64, base: &Path) -> RunR
 pub enum ChildRun {
     Pass,
     Fail(String),
+    /// no progress for the time limit
     Hang,
+    /// still progressing when the hard cap (15 x the limit) was reached
+    Slow,
     Died(String),
 }
 
@@ -731,6 +781,8 @@ pub fn run_case_file_in_child(profile: &str, file: &Path, limit_s: u64) -> Child
         Err(e) => return ChildRun::Died(format!("spawn: {e}")),
     };
     let start = Instant::now();
+    let mut last_prog: (u64, Instant) = (u64::MAX, Instant::now());
+    let mut last_read = Instant::now();
     loop {
         match child.try_wait() {
             Ok(Some(st)) => {
@@ -749,10 +801,23 @@ pub fn run_case_file_in_child(profile: &str, file: &Path, limit_s: u64) -> Child
                 };
             }
             Ok(None) => {
-                if start.elapsed().as_secs() >= limit_s {
+                if last_read.elapsed() > Duration::from_millis(400) {
+                    last_read = Instant::now();
+                    if let Some(v) = read_progress(&scratch) {
+                        if v != last_prog.0 {
+                            last_prog = (v, Instant::now());
+                        }
+                    }
+                }
+                if last_prog.1.elapsed().as_secs() >= limit_s {
                     let _ = child.kill();
                     let _ = child.wait();
                     return ChildRun::Hang;
+                }
+                if start.elapsed().as_secs() >= limit_s * 15 {
+                    let _ = child.kill();
+                    let _ = child.wait();
+                    return ChildRun::Slow;
                 }
                 std::thread::sleep(Duration::from_millis(5));
             }
@@ -906,6 +971,10 @@ pub fn check_main(prop: &dyn Prop, tier: Tier, seed: u64) -> i32 {
     // 3. suspects (hang / death): re-run alone, twice
     let mut handled = 0;
     for s in &rr.suspects {
+        if s.why.starts_with("SLOW") {
+            inconclusive.push(format!("case {}: {}", s.index, s.why));
+            continue;
+        }
         handled += 1;
         if handled > 3 {
             inconclusive.push(format!("case {}: {} (not re-run, too many suspects)", s.index, s.why));
@@ -921,7 +990,7 @@ pub fn check_main(prop: &dyn Prop, tier: Tier, seed: u64) -> i32 {
         } else {
             run_case_file_in_child(&s.profile, &p, limit)
         };
-        let bad = |r: &ChildRun| !matches!(r, ChildRun::Pass);
+        let bad = |r: &ChildRun| !matches!(r, ChildRun::Pass | ChildRun::Slow);
         if bad(&r1) && bad(&r2) {
             // reproduced twice
             let kind = match (&r1, &r2) {
@@ -1063,6 +1132,7 @@ pub fn replay_inner(prop: &dyn Prop, case: &Value) -> i32 {
         .map(PathBuf::from)
         .unwrap_or_else(|_| scratch_base().join(format!("vp-replay-{}", std::process::id())));
     let _ = std::fs::create_dir_all(&base);
+    start_heartbeat(base.clone());
     let w = WCtx::new(base.clone(), std::env::current_exe().unwrap(), current_profile(), verif_root());
     let r = prop.replay(case, &w);
     let _ = std::fs::remove_dir_all(&base);
